@@ -58,4 +58,19 @@ CLAIMS["C12"] = {"text": "TLC explores every program of <= 3/4 statements over a
                         "sink, and the capture law for every program; all programs and their capture-wrapped twins are "
                         "rendered by the implementation and trace-validated."}
 
+CLAIMS["C13"] = {"text": "TLC explores the trim-writer model (one buffered write, right-trim flag, flush at every block end, fresh writer "
+                        "for capture) step by step on every flat sequence of <= 2/3 elements with all hyphen combinations and on 7 "
+                        "block skeletons x hyphen subsets, checking it against the declarative laws of the statement (weak law, "
+                        "only-whitespace-removed, facing-text law); each program and its hyphen-free twin are rendered by the "
+                        "implementation and TraceC13 validates the two observed outputs against those laws and the reference; "
+                        "plus seeded random programs with hyphens.",
+                 "ref": "DESIGN.md §6 C13"}
+CLAIMS["C20"] = {"text": "TLC runs the render machine against a sink failing at every call k (keeping 0/1/all bytes) on templates "
+                        "covering every write site, with prefix / no-success-after-fault / no-panic / no-call-after-fault "
+                        "invariants in every state; the implementation renders each template and seeded random programs into a "
+                        "writer failing at each call of its own fault-free run (FRender, ParseAndFRender), every Write call is "
+                        "logged, and TraceC20 replays the log through the specification's sink action checking the invariants "
+                        "after every event and the final outcome.",
+                 "ref": "DESIGN.md §6 C20"}
+
 NOT_CLAIMED = {}
